@@ -247,10 +247,18 @@ def main(argv: List[str]) -> int:
     # python converter acceptance of True vectors
     from lib.pylive import Live
 
-    live = Live()
-    conv = live.converter
+    try:
+        live = Live()
+        conv = live.converter
+        py_acceptance = "evaluated"
+    except Exception as e:  # noqa: the generated package of the tree under check does not import (C04 / C06 report that); labels are still decided
+        live = conv = None
+        py_acceptance = f"skipped: lsprotocol of the tree under check does not import ({type(e).__name__}: {str(e)[:120]})"
+        print(f"NOTE property=C17 python acceptance of the True vectors {py_acceptance}")
 
     def accepts(cname, msg):
+        if live is None:
+            return None
         cls = getattr(live.types, cname, None)
         if cls is None:
             return f"no class {cname}"
@@ -279,6 +287,7 @@ def main(argv: List[str]) -> int:
             "distinct_nontrivial": res["vectors"],
             "rule": "one evaluation = one emitted vector (distinct by content hash)",
             "exhaustive": True,
+            "python_acceptance": py_acceptance,
             "message_classes": res["classes"],
             "true_vectors": res["true_vectors"],
             "constant_function_yields": n1,
